@@ -201,7 +201,7 @@ class Check:
         log("[%s] %s: %d cases, %d mismatches (%.1fs)" % (name, kind, summ.get("lines", 0), summ.get("n_mismatch", 0), time.time() - t0))
         return summ
 
-    def traces_stage(self, name, recorder, profile, files, runs, ops, trace_spec="BookTrace", par=8, extra_args=(), timeout=600, consts=None, view=None, spec="TSpec", report="Report"):
+    def traces_stage(self, name, recorder, profile, files, runs, ops, trace_spec="BookTrace", par=8, extra_args=(), timeout=600, consts=None, view=None, spec="TSpec", report="Report", post="Accepted"):
         if self.skip(name):
             return {}
         """record-validate: `files` trace files, each `runs` runs of <= `ops` calls."""
@@ -223,7 +223,7 @@ class Check:
             if r.returncode != 0:
                 raise ToolError("%s: recorder failed: %s" % (name, r.stderr[-2000:]))
             summ = json.loads(r.stdout.strip().splitlines()[-1])
-            v = core.validate_trace("%s_%s_%d" % (self.prop, name, i), trace_spec, out, timeout=timeout, consts=consts, view=view, spec=spec, report=report)
+            v = core.validate_trace("%s_%s_%d" % (self.prop, name, i), trace_spec, out, timeout=timeout, consts=consts, view=view, spec=spec, report=report, post=post)
             return i, out, seed, summ, v
 
         tot_events, tot_states, nrej, ndiv = 0, 0, 0, 0
